@@ -20,3 +20,14 @@ mod light_self_emulation;
 
 #[cfg(not(feature = "truncated-challenges"))]
 pub mod light_aggregator;
+
+/// Verification hooks: re-exports of internal items that an external test
+/// harness needs in order to drive the aggregator (the transcript hash used
+/// by inner proofs) and the inner-product argument directly.
+#[cfg(all(feature = "verif-hooks", not(feature = "truncated-challenges")))]
+pub mod verif_hooks {
+    pub use crate::{
+        inner_product_argument::{ipa_prove, ipa_verify},
+        light_fiat_shamir::LightPoseidonFS,
+    };
+}
